@@ -573,6 +573,7 @@ int main(int argc, char** argv) {
     static char outbuf[1 << 16];
     setvbuf(stdout, outbuf, _IOFBF, sizeof outbuf);
     verif_install_death_flush();
+    verif_snapshot_option(argc, argv);
     verif_x86base_option(argc, argv);
     while (read_line(stdin)) {
         if (g_ntok == 0) { printf("\n"); continue; }
